@@ -46,7 +46,13 @@ pub(crate) fn input_matches(mut input: Ref) -> io::Result<bool> {
 		Ref::Reader(r) => match_input_reader(r),
 	};
 	match result {
-		Err(InvalidMarkerRead(err) | InvalidDataRead(err)) => Err(err),
+		// Running out of input in the middle of a value means the input is not
+		// MessagePack; it is not a failure of the input source.
+		Err(InvalidMarkerRead(err) | InvalidDataRead(err))
+			if err.kind() != io::ErrorKind::UnexpectedEof =>
+		{
+			Err(err)
+		}
 		Err(_) => Ok(false),
 		Ok(()) => Ok(true),
 	}
